@@ -10,6 +10,13 @@ sb=${SEED_SB:-/tmp/vseed}
 mkdir -p $sb
 rsync -a --delete --exclude harness/target --exclude harness/target-scc --exclude replays --exclude .git --exclude seeded /verif/ $sb/
 grep -rl "/repo" $sb/check $sb/harness/Cargo.toml $sb/harness/src | xargs sed -i "s#/repo#$wt#g"
+# cargo names the artifacts of workspace members by their path relative to the workspace root, so a
+# target directory shared by several worktrees re-uses another worktree's crates whenever the
+# sources are older than the artifacts: the scc binary gets its own directory per worktree
+if [ "$(cat $sb/.last_worktree 2>/dev/null)" != "$wt" ]; then
+  rm -rf $sb/harness/target-scc
+  echo "$wt" > $sb/.last_worktree
+fi
 cd $sb
 for p in "$@"; do
   out=$(VERIF_BUDGET_S=${SEED_BUDGET_S:-40} ./check "$p" quick 2>&1)
